@@ -88,7 +88,7 @@ let run_seq (toks : string list) (impl : string list) : string =
    (only "after" when it ran after the return, only "before" when j = 0 and it fired inside).  The
    implementation's token decides which order the model continues from; if neither order explains it
    the model prints its own "after" answer with a trailing !nonatomic. *)
-let run_callers (self : bytes) (toks : string list) (impl : string list) : string =
+let run_callers ?(any = false) (self : bytes) (toks : string list) (impl : string list) : string =
   let impl = Array.of_list impl in
   let pending = ref None in
   let rec go reg toks acc =
@@ -106,7 +106,7 @@ let run_callers (self : bytes) (toks : string list) (impl : string list) : strin
       let m = bytes_of_hex m and sid = bytes_of_hex sid and mixed = (mixed = "1") in
       let site reg =
         if kind = "C" then begin
-          let (reg', evs) = caller_claim self mixed reg s c m sid in
+          let (reg', evs) = caller_claim_v any self mixed reg s c m sid in
           let txt = String.concat "," (List.map (fun (sd, k) -> hex_of_bytes sd ^ "@" ^ show_key k) evs) in
           (reg', "ev[" ^ txt ^ "]")
         end else (caller_release self mixed reg s c m sid, "ok") in
@@ -140,13 +140,15 @@ let run_callers (self : bytes) (toks : string list) (impl : string list) : strin
 (* ---- both components end to end (harness/C17/zz_verif_c17_e2e_test.go) ---- *)
 let e2e_tuples = [| "100.10.02aabbcc0001"; "100.10.02aabbcc0011"; "100.11.02aabbcc0001"; "100.0.02aabbcc0002" |]
 let run_e2e (v : variant) (toks : string list) : string =
-  let show w t =
+  let show1 w t =
     let k = key_of_tok e2e_tuples.(t) in
     let ((ni, np), own) = e2e_snapshot w k in
     let o = match own with
       | None -> "-"
       | Some p -> if p = proto_ipoe then "i" else if p = proto_pppoe then "p" else "?" in
     Printf.sprintf "t%d:i%dp%d:%s" t (int_of_nat ni) (int_of_nat np) o in
+  (* all four tuples after every op, the op's own tuple first *)
+  let show w t = String.concat "," (show1 w t :: List.filter_map (fun u -> if u = t then None else Some (show1 w u)) [0; 1; 2; 3]) in
   let rec go w toks acc =
     match toks with
     | [] -> List.rev acc
@@ -154,7 +156,8 @@ let run_e2e (v : variant) (toks : string list) : string =
       let t = Char.code op.[1] - 48 in
       let k = key_of_tok e2e_tuples.(t) in
       let w' = e2e_step v w (match op.[0] with
-          | 'D' -> EDiscover k | 'P' -> EPadr k | _ -> failwith ("bad e2e op " ^ op)) in
+          | 'D' -> EDiscover k | 'Q' -> ERequest k | 'S' -> ESolicit k | 'P' -> EPadr k
+          | _ -> failwith ("bad e2e op " ^ op)) in
       go w' rest (show w' t :: acc) in
   match go world0 toks [] with
   | [] -> "empty"
@@ -285,8 +288,14 @@ let () =
   let lines = read_lines Sys.argv.(1) in
   let impl = if Array.length Sys.argv > 2 && Sys.argv.(2) <> "-" then read_lines Sys.argv.(2) else [] in
   let impl = Array.of_list impl in
-  (* Repaired = /repo HEAD (since 94649ad); "defective" only for replaying the historical witness by hand *)
-  let variant = if Array.length Sys.argv > 3 && Sys.argv.(3) = "defective" then Defective else Repaired in
+  (* model variants: which of the still-open repairs are assumed (94649ad is in /repo: v_keyhit always true here) *)
+  let vname = if Array.length Sys.argv > 3 then Sys.argv.(3) else "repaired" in
+  let variant = match vname with
+    | "unclaimed_paths" -> { v_keyhit = true; v_claim_all = false; v_evict_pp = true }
+    | "superseded_survives" -> { v_keyhit = true; v_claim_all = true; v_evict_pp = false }
+    | "unclaimed_and_superseded" -> { v_keyhit = true; v_claim_all = false; v_evict_pp = false }
+    | "pre_94649ad" -> { v_keyhit = false; v_claim_all = false; v_evict_pp = false }
+    | _ -> { v_keyhit = true; v_claim_all = true; v_evict_pp = true } in
   List.iteri (fun idx line ->
       let out =
         try
@@ -306,7 +315,7 @@ let () =
             else "malformed"
           | "e2e" :: rest -> run_e2e variant rest
           | "ipoe" :: rest -> run_callers proto_ipoe rest (if idx < Array.length impl then tokens impl.(idx) else [])
-          | "pppoe" :: rest -> run_callers proto_pppoe rest (if idx < Array.length impl then tokens impl.(idx) else [])
+          | "pppoe" :: rest -> run_callers ~any:variant.v_evict_pp proto_pppoe rest (if idx < Array.length impl then tokens impl.(idx) else [])
           | "seq" :: rest -> run_seq rest (if idx < Array.length impl then tokens impl.(idx) else [])
           | ("conc" | "rconc") :: rest ->
             if idx < Array.length impl then begin
